@@ -195,8 +195,6 @@ impl PartialOrd for Constants {
     ensures b == cle(*lc, *rc),
 //@ spec
     ensures /*@exact*/ r == cmp_view(self@, other@),
-//@ enter
-    broadcast use {ordering_cmp::axiom_ordering_obeys_partial_cmp, ordering_cmp::axiom_ordering_partial_cmp};
 //@ loop 0
     invariant
         graph::seq_lists_map(it.seq(), self@),
@@ -273,6 +271,49 @@ impl Constants {
 //@ rewrite 1 `self.constants .iter_mut() .for_each(|(_, constant)| *constant =` => `hashmap_fill::hashmap_fill_values(&mut self.constants,` ## R-fill: `m.iter_mut().for_each(|(_, x)| *x = E)` assigns E to every stored value and touches no key; for a side-effect-free E that does not mention the entry this is `hashmap_fill_values(&mut m, E)` (prelude/hashmap_fill.rs, assumed contract of iter_mut); E stays the original tokens
 //@ spec
     ensures /*@top*/ final(self)@ == top_view(old(self)@),
+//@ end
+
+//@ fn impl Constants :: fn eval loops=1
+//@ rewrite 1 `let expression = expression_scalars .into_iter() .try_fold(expression.clone(), |expr, scalar| {` => `let mut vf_acc = expression.clone(); for scalar in vf_it: expression_scalars.into_iter() { let expr = vf_acc; vf_acc = {` ## R-try_fold: `let x = ITER.try_fold(INIT, |acc, item| BODY)?;` (BODY: Option<_>) is by definition `let mut a = INIT; for item in ITER { let acc = a; a = BODY?; } let x = a;` - the first None ends the fold and is returned by the `?` behind it; a `?` inside BODY leaves the closure with None, which has the same effect (part 1 of 2; ITER, INIT and BODY stay the original tokens)
+//@ rewrite 1 `}) ?;` => `}?; } let expression = vf_acc;` ## R-try_fold: part 2 of 2 (closes the loop and binds the fold's result to the original name)
+//@ spec
+    requires expr_sane(*expression), consts_wf(self@),
+    ensures
+        /*@exact*/ r == eval_view(self@, *expression),
+        /*@sound*/ r matches Some(c) ==> c.wf() && all_known(self@, expr_scalars(*expression))
+            && eval_spec(*expression, cenv(self@)) == EvalR::Val(c.bits as nat, c.value@),
+//@ before 0 `let mut vf_acc`
+    let ghost ss = expr_scalars(*expression);
+    let ghost refs = expression_scalars@;
+//@ loop 0
+    invariant
+        vf_it.seq() == refs,
+        refs.len() == ss.len(),
+        forall|i: int| 0 <= i < refs.len() ==> *(#[trigger] refs[i]) == ss[i],
+        ss == expr_scalars(*expression),
+        subst_seq(*expression, ss.take(vf_it.index@ as int), self@) == Some(vf_acc),
+//@ before 0 `let expr = vf_acc;`
+    proof {
+        lemma_subst_step(*expression, ss, self@, vf_it.index@ as int);
+        lemma_subst_prefix_none(*expression, ss, self@, vf_it.index@ + 1);
+    }
+//@ before 0 `let expression = vf_acc;`
+    proof {
+        assert(ss.take(ss.len() as int) =~= ss);
+        lemma_subst_seq(*expression, ss, self@, il::empty_env());
+    }
+//@ after 0 `let expression = vf_acc;`
+    let ghost e2 = expression;
+//@ before 0 `eval(&expression).ok()`
+    proof {
+        assert forall|res: Result<il::Constant, Error>| il::eval_agrees(res, eval_spec(e2, il::empty_env())) implies
+            (res matches Ok(c) ==> eval_view(self@, *old_expression) == Some(c) && c.wf()) && (res is Err ==> eval_view(self@, *old_expression) is None) by {
+            lemma_eval_view_result(self@, *old_expression, e2, res);
+        }
+        if eval_view(self@, *old_expression) is Some { lemma_eval_view_sound(self@, *old_expression, eval_view(self@, *old_expression).unwrap()); }
+    }
+//@ before 0 `let expression_scalars`
+    let ghost old_expression = expression;
 //@ end
 
 //@ fn impl Constants :: fn join loops=1
